@@ -554,7 +554,7 @@ def gen_risky(rng, base_feats=None):
             break
     extra_decl = []
     extra = []
-    picks = rng.sample(range(13), rng.randint(2, 5))
+    picks = rng.sample(range(14), rng.randint(2, 5))
     for p in picks:
         if p == 0:
             extra_decl.append('(declare-const a Int)')
@@ -642,6 +642,15 @@ def gen_risky(rng, base_feats=None):
                 '(assert (fp.eq fx (_ +zero 8 24)))',
                 '(assert (fp.isNaN (fp.add RNE fx fx)))'
             ]))
+        elif p == 13:
+            # a term equated with a variable and used elsewhere: replacing
+            # the term by the variable and eliminating the variable again
+            extra_decl.append('(declare-const xv Int)')
+            extra_decl.append('(declare-const yv Int)')
+            extra_decl.append('(declare-fun pr (Int) Bool)')
+            extra.append('(assert (= xv (+ yv 1)))')
+            extra.append(rng.choice(['(assert (pr (+ yv 1)))',
+                                     '(assert (> (+ yv 1) 0))']))
         elif p == 12:
             extra_decl.append('(declare-const ar (Array Int Int))')
             extra_decl.append('(declare-const k Int)')
@@ -661,3 +670,45 @@ def gen_risky(rng, base_feats=None):
         k += 1
     out = lines[:k] + decls + lines[k:tail_at] + extra + lines[tail_at:]
     return '\n'.join(out) + '\n'
+
+
+TRICKY_LITERALS = [
+    '"assertion ""x > 0"" failed in iteration 7 of the main loop after 12 times"',
+    '"say ""hi"" to all of you and then wait for the answer of everybody else"',
+    '"a (parenthesised) remark ; with a semicolon and | a bar inside the text"',
+    '"two  blanks and a tab\tinside of a fairly long string literal token here"',
+    '"""quoted"" at the start and at the ""end"""',
+    '"x""y"', '""""', '"plain but long enough to push the line beyond the wrap width ok"',
+]
+TRICKY_SYMBOLS = [
+    '|a quoted symbol with several blanks inside of it and some (parens) too|',
+    '|semi;colon and "double quotes" inside a quoted symbol that is long|',
+    '|q|', '|two words|',
+    'a_very_long_simple_symbol_' + 'x' * 70,
+]
+
+
+def gen_lexical(rng):
+    """Script whose tokens stress the renderers: long string literals with
+    escaped quotes and blanks, quoted symbols with blanks / parentheses /
+    semicolons, tokens longer than the wrap width, comments inside terms.
+    Returns (text, tricky tokens that occur in it)."""
+    lits = rng.sample(TRICKY_LITERALS, rng.randint(1, 3))
+    syms = rng.sample(TRICKY_SYMBOLS, rng.randint(1, 2))
+    lines = ['(set-logic ALL)', '(declare-const s String)']
+    for sy in syms:
+        lines.append(f'(declare-const {sy} String)')
+    used = []
+    for i, li in enumerate(lits):
+        sy = rng.choice(syms + ['s'])
+        form = rng.choice([
+            '(assert (= {sy} {li}))',
+            '(assert (str.contains (str.++ s {sy}) {li}))',
+            '(assert (not (= (str.++ {li} s) (str.++ {sy} {li}))))',
+            '(assert (str.prefixof {li} ; comment inside\n (str.++ {sy} s)))',
+        ])
+        lines.append(form.format(sy=sy, li=li))
+        used += [li] + ([sy] if sy != 's' else [])
+    lines.append('(assert (= s s))')
+    lines.append('(check-sat)')
+    return '\n'.join(lines) + '\n', sorted(set(used))
